@@ -13,8 +13,13 @@ CLAIMED = {
         "technique": "AST/CFG must-assignment dataflow over constructors, return-value path rule, dict-key typestate, string-segment abstract interpretation of key codecs",
         "note": _COMMON_NOTE + " Declined: equality of parameter values for arbitrary objects and 'behaves identically after set_params' beyond the derived-state rule.",
     },
+    "C02": {
+        "text": "Static analysis of every public method of every estimator class and of everything they reach inside the package: fit returns self on all normal exits; every write of self.<hyper-parameter> outside __init__/set_params is shown, on the CFG with exception edges, to be restored on every exit including exceptional ones; a flow-sensitive may-alias analysis with interprocedural write summaries shows no in-place write reaches the caller's X/y/sample_weight; every .fit receiver on a fit path is traced (through locals, lists, parameters and delayed() tasks) to a clone unless the class is a documented in-place wrapper. Tests cannot enumerate failure points of fit; the CFG rule covers every call that can raise.",
+        "technique": "CFG with exception edges + path search for unrestored overrides; flow-sensitive may-alias dataflow with interprocedural write summaries; receiver-origin tracing for clone-before-fit",
+        "note": _COMMON_NOTE + " Declined: 'a later successful fit equals a fresh clone' as a numerical statement (decided only through restored state here and C03). Anything not in the alias tables is treated as producing a fresh object, so only positively derived writes are reported.",
+    },
 }
 
 NOT_APPLICABLE = {}
 
-FIX_COMMITS = ["6505037", "37050b8", "33dee10", "d99d4dd", "4f7666c", "028434d"]
+FIX_COMMITS = ["6505037", "37050b8", "33dee10", "d99d4dd", "4f7666c", "028434d", "395087d", "d475015", "054609b"]
